@@ -238,10 +238,11 @@ Definition emit_from_body (a : ast) (t : ast_type) : eres dbody :=
                                                   variant_name l, Some e)))
                           (uc_values c))
                  (un_cases u)) (fun arms =>
-    let voids := map (fun l => (if String.eqb l "default" then MWild
-                                else label_matcher a (un_sw_type u) l,
-                                variant_name l, @None dexp)) (un_void u) in
+    (* the catch-all arm of a void default is written after all other void arms *)
     let did_void_default := mem "default" (un_void u) in
+    let voids := (map (fun l => (label_matcher a (un_sw_type u) l, variant_name l, @None dexp))
+                      (filter (fun l => negb (String.eqb l "default")) (un_void u))
+                  ++ (if did_void_default then [(MWild, variant_name "default", @None dexp)] else []))%list in
     ebind (match un_default u with
            | Some d => ebind (decode_array a (uc_value d) UseAlias) (fun e => EOk (FbDefault e))
            | None => EOk (if did_void_default then FbNone else FbUnknown)
